@@ -50,6 +50,14 @@ def run(index, rep, db=None):
     # the feasible sets as each round states them: charge met exactly (human rounds); demand ceilings and never-rising totals (feed round)
     from .c01 import feed_biofuel
     rep.guard(feed_biofuel, db, rep, "C02")
+    # ... and the resource balances: 'the largest value over all physically feasible allocations' is claimed for the programme only if its
+    # feasible set is the physical one (an unconstrained withdrawal makes the optimum of the programme exceed the true optimum)
+    from .c01 import sf, crop, meat, scp_cs, seaweed
+    from .core import RuleAlias
+    # (the cumulative meat cap, a recorded finding of C01, stays there)
+    feas = RuleAlias(rep, lambda r: None if r == "C01.MEATCUM" else ("C02.FEAS_" + r.split(".", 1)[1] if r.startswith("C01.") else r))
+    for grp in (sf, crop, meat, scp_cs, seaweed):
+        rep.guard(grp, db, feas)
     return db
 
 
@@ -173,7 +181,13 @@ def animal(db, rep):
                   "animal-round objective is not bounded by 2/3 x total feed + 1/3 x total biofuel over all months "
                   "(feed weighted exactly twice biofuel)", loc=OPT,
                   detail=f"required {target} <= 0; got {[str(c) for _, c in t.constraints]}"[:600])
-    # pins
+    pins(db, rep, rule)
+    rep.require_min(rule, 30)
+
+
+def pins(db, rep, rule):
+    """round 2 pins every food's human consumption to the handed-off minimum, every month, within a small symmetric tolerance (used by
+    C02.ANIMAL - the feed round's optimum is taken 'given the pinned human consumption' - and by C03.PIN - people come first)"""
     for flagname, row in db.resources.items():
         food = row["food_name"]
         if food not in PIN:
@@ -213,7 +227,6 @@ def animal(db, rep):
             rep.check(ok, rule, f"pin[{food}|months{t.mc}|{'small-pop' if small else 'normal'}]",
                       f"round 2 does not pin {fam} (x {coef}) to the handed-off minimum human consumption of {food} within a "
                       f"symmetric tolerance <= 1e-3 (found lower x{lo}, upper x{hi})", loc=OPT)
-    rep.require_min(rule, 30)
 
 
 def read(index, rep):
